@@ -525,6 +525,16 @@ async fn body(seed: u64, trace: Arc<Trace>) -> (Vec<String>, Vec<(String, String
                         v.push(("exit-time".into(), format!("{:?} due at {due}ms took effect at {ms}ms", pl.kind)));
                     }
                 }
+                // a kill timer that was not aborted takes the target down at its due time whatever the target is doing then
+                // (idle, in a slow handler, draining a backlog, already asked to stop): the target cannot outlive it
+                if pl.kind == Kind::KillAfter && ab.map(|a| a > due).unwrap_or(true) && due < t_end {
+                    match &term {
+                        Some((ms, reason)) if *ms > due => {
+                            v.push(("kill-after-ignored".into(), format!("kill_after({:?}) created at {c_ms}ms was due at {due}ms, but the target lived until {ms}ms (exit reason '{reason}')", pl.period)));
+                        }
+                        _ => {}
+                    }
+                }
             }
         }
     }
